@@ -257,29 +257,43 @@ def run(ctx):
             cx = ConnectionContext(protocol_version=v)
             for cls in (JoinGamePacket, RespawnPacket):
                 d = [(n, t) for f in cls.get_definition(cx) for n, t in f.items()]
-                p = cls(cx)
-                for n, t in d:
-                    from minecraft.networking.types import basic as B
-                    if t is B.NBT:
-                        setattr(p, n, pynbt.TAG_Compound({'a': pynbt.TAG_Int(1)}))
-                    else:
-                        tok = extract.wtype_of(t, cx)[1]
-                        setattr(p, n, gen_value(rng, tok, cx, True)[0])
-                buf = PacketBuffer()
-                p.write_fields(buf)
-                q = cls(cx)
-                rb = PacketBuffer()
-                rb.send(buf.get_writable())
-                rb.reset_cursor()
-                q.read(rb)
-                ctx.case(('nbt', cls.__name__, v))
-                if rb.read():
-                    ctx.violation('%s at %d: payload not consumed' % (cls.__name__, v), {}, key={'nbt': [cls.__name__, v]})
-                try:
-                    repr(p), repr(q), str(q)
-                except Exception as e:
-                    ctx.violation('%s at protocol %d: textual representation raises %r' % (cls.__name__, v, e),
-                                  {'class': cls.__name__, 'version': v}, key={'class': cls.__name__, 'version': v, 'kind': 'repr'})
+                for rep in range(3):
+                    p = cls(cx)
+                    written = []
+                    order = list(d)
+                    if rep == 2:
+                        rng.shuffle(order)             # fields may be assigned in any order
+                    for n, t in order:
+                        from minecraft.networking.types import basic as B
+                        if t is B.NBT:
+                            setattr(p, n, pynbt.TAG_Compound({'a': pynbt.TAG_Int(1)}))
+                        else:
+                            tok = extract.wtype_of(t, cx)[1]
+                            pyv, _, exp = gen_value(rng, tok, cx, rep == 0)
+                            setattr(p, n, pyv)
+                            written.append((n, exp))
+                    buf = PacketBuffer()
+                    p.write_fields(buf)
+                    q = cls(cx)
+                    rb = PacketBuffer()
+                    rb.send(buf.get_writable())
+                    rb.reset_cursor()
+                    q.read(rb)
+                    ctx.case(('nbt', cls.__name__, v, rep))
+                    if rb.read():
+                        ctx.violation('%s at %d: payload not consumed' % (cls.__name__, v), {}, key={'nbt': [cls.__name__, v]})
+                    for n, exp in written:
+                        if not same(exp, canon(getattr(q, n))):
+                            ctx.violation('%s at protocol %d: field %s reads back as %r, written %r (fields assigned in the order %s)'
+                                          % (cls.__name__, v, n, getattr(q, n), exp, ','.join(x for x, _ in order)),
+                                          {'class': cls.__name__, 'version': v, 'field': n},
+                                          key={'class': cls.__name__, 'version': v, 'kind': 'nbt-class-field', 'field': n})
+                            break
+                    try:
+                        repr(p), repr(q), str(q)
+                    except Exception as e:
+                        ctx.violation('%s at protocol %d: textual representation raises %r' % (cls.__name__, v, e),
+                                      {'class': cls.__name__, 'version': v}, key={'class': cls.__name__, 'version': v, 'kind': 'repr'})
     except ImportError:
         ctx.notes.append('pynbt missing: NBT classes not exercised')
     # ------------------------------------------------------------------ user-defined packets: random field lists
